@@ -1,0 +1,31 @@
+//go:build verif
+
+// Contracts of package parser for the gocv verifier (property C21).
+// Comment-only: no Go code is compiled from this file.
+//
+// Contract of the interface parser.Parser (assumed of p here, and proved of
+// riscv.Parser in internal/riscv/contracts_verif.go): Parse(addr, b) returns
+// an error, or an instruction model with 1 <= ByteLen <= len(b) that passes
+// model.Instruction.Validate; an instruction needs at least two bytes.
+//
+// code_image(k): the k-th code image of the corpus (blocks of arbitrary bytes
+// at fixed addresses). abstract_parser(): a parser about which only the
+// interface contract is known: at every position it either fails or returns
+// a 2- or 4-byte instruction fitting the remaining bytes, whose effects are
+// built from the bytes at that position. image_undecodable(): tiling the
+// blocks from their begin reaches a position where the parser fails (an
+// undecodable or truncated word). tiles_image(r): r lists, block by block in
+// address order, one instruction per tile with its address, exactly the bytes
+// at that address, type and details of the model, and effects of the same
+// kinds, keys and widths whose operands have the width and value of the lifted
+// ones.
+
+package parser
+
+//@ func Parse
+//@   enum k in IMAGES
+//@   input:m code_image(k)
+//@   input:p abstract_parser()
+//@   ensures[fails-iff-undecodable-position] (result1 != nil) == image_undecodable()
+//@   ensures[nothing-on-error] result1 != nil ==> len(result0) == 0
+//@   ensures[tiles-the-image] result1 == nil ==> tiles_image(result0)
